@@ -147,19 +147,25 @@ func (e *Engine) Begin(ctx context.Context, lock bool) (*Transaction, error) {
 	// ensure context
 	ctx = ensureContext(ctx)
 
-	// check for transaction
+	// release the lock for the session check and the token acquisition
 	verifPoint("begin.locked", e)
+	e.mutex.Unlock()
+
+	// check for transaction (without lock: the session methods call into the
+	// engine while holding the session lock, so taking the session lock under
+	// the engine lock would invert the lock order and may deadlock goroutines
+	// that share a session)
 	sess, ok := ctx.Value(sessionKey{}).(*Session)
 	if ok {
 		txn := sess.Transaction()
 		if txn != nil {
+			e.mutex.Lock()
 			return nil, fmt.Errorf("detected nested transaction")
 		}
 	}
 
 	// acquire token (without lock); use a tomb-aware context so that a shutdown
 	// unblocks the acquisition
-	e.mutex.Unlock()
 	verifPoint("begin.unlocked", e)
 	ok = e.token.Acquire(e.tomb.Context(ctx).Done(), time.Minute)
 	if ok {
